@@ -39,7 +39,7 @@ def recipe(c: Check):
                                      detail="counter %s = %s" % (k, ctr.get(k))))
     live = c.run_driver("liveness", q(c.tier, 1, 3), shards=1, timeout=q(c.tier, 240, 900))
     if live is not None:
-        need = ["blocked_dials", "silent_client_quic", "silent_client", "silent_client_mux", "silent_from_start", "silent_from_start_mux", "pinging_client", "invalid_pings", "silent_server", "pong_error", "outage_relogin"]
+        need = ["blocked_dials", "inflight_teardown", "oidc_two_identities", "silent_client_quic", "silent_client", "silent_client_mux", "silent_from_start", "silent_from_start_mux", "pinging_client", "invalid_pings", "silent_server", "pong_error", "outage_relogin"]
         got = live.get("scenarios_run", [])
         for n in need:
             if n not in got:
